@@ -560,8 +560,67 @@ fn control_gen(ctx: &crate::engine::Ctx) -> Vec<Case> {
         .collect()
 }
 
+/// Every kind of lie with the post-challenge choice aimed at the sub-proof the lie is about (and at
+/// its alternative), enumerated: the combinations the random search only meets with some probability.
+fn matched_gen(ctx: &crate::engine::Ctx) -> Vec<Case> {
+    let d1 = ScSpec::One;
+    let dr = ScSpec::Rand(ctx.seed ^ 0x77);
+    let mut lies: Vec<PayLie> = vec![
+        PayLie::WrongNonce(ctx.seed ^ 1),
+        PayLie::AmountOneSide(true),
+        PayLie::AmountOneSide(false),
+        PayLie::AmountOff(true, d1.clone()),
+        PayLie::AmountOff(false, dr.clone()),
+        PayLie::SignFlipped,
+        PayLie::OldLockMismatch(d1.clone()),
+        PayLie::OldLockMismatch(dr.clone()),
+        PayLie::NewLockMismatch(dr.clone()),
+        PayLie::CloseBalanceMismatch(true, d1.clone()),
+        PayLie::CloseBalanceMismatch(false, dr.clone()),
+        PayLie::TokenOtherKey,
+        PayLie::TokenShifted(d1.clone()),
+        PayLie::TokenForOtherState(true, d1.clone()),
+        PayLie::TokenForOtherState(false, ScSpec::Small(1000)),
+        PayLie::TokenOutsideSubgroup(true, d1.clone()),
+    ];
+    for k in 0..3 {
+        lies.push(PayLie::Overdraw(k));
+        lies.push(PayLie::MerchantOverdraw(k));
+        lies.push(PayLie::ForeignCid(k, dr.clone()));
+        lies.push(PayLie::TagReplaced(k, ctx.seed ^ k as u64));
+    }
+    let mut out = Vec::new();
+    let amounts = [AmtSel::Small(3, true), AmtSel::Small(2, false), AmtSel::Zero, AmtSel::InRange(ctx.seed)];
+    for (i, lie) in lies.iter().enumerate() {
+        for alt in [false, true] {
+            let Some(f) = natural_field(lie, alt) else { continue };
+            if alt && natural_field(lie, false) == Some(f.clone()) {
+                continue;
+            }
+            for (j, strategy) in [PayStrategy::TLast(f.clone(), i % 2 == 0), PayStrategy::CLast(f.clone(), i % 2 == 1)].into_iter().enumerate() {
+                out.push(Case {
+                    source: ((i + j) % 4) as u8,
+                    amount: amounts[(i + j) % amounts.len()].clone(),
+                    lie: lie.clone(),
+                    strategy,
+                    seed: ctx.seed.wrapping_mul(0x9e37_79b9).wrapping_add((i * 8 + j * 2 + alt as usize) as u64),
+                });
+            }
+        }
+    }
+    out
+}
+
 pub fn checks() -> Vec<CheckDef> {
     vec![
+        crate::engine::enum_check(
+            "matched-forgeries",
+            "enumerated: every kind of lie (wrong nonce, amount on one side / off / sign flipped, old / new lock mismatch, close-state balance, foreign or tampered or mismatching or absent token, overdraw variants 0-2 on either balance, foreign channel id in state / close / both, close tag replaced three ways) x the sub-proof the lie is about and its alternative x {scalar commitment, commitment} of that sub-proof chosen after the challenge (with / without re-chosen revealed scalars); same oracle as forged-pay; distinct by case",
+            &[],
+            false,
+            matched_gen,
+            oracle,
+        ),
         crate::engine::enum_check(
             "forger-control",
             "deterministic controls: the forger's own no-lie plain payment on every pay-token source must be accepted by allow_payment; the closing signature must be valid exactly on (cid, CLOSE, new lock, cb - amount, mb + amount), complete_payment must accept the old state's pair with the prover's blinding factor, and the new pay token must be valid on the new state (reference pairing checks)",
